@@ -408,6 +408,8 @@ def check_done(eng, run):
 
 
 def run(eng, run):
+    from sa.anchors import verify as _verify_anchor_names
+    _verify_anchor_names(eng, run)
     run.not_decided += NOT_DECIDED
     run.assumptions += ["asyncio transports call pause_writing/resume_writing/connection_lost as documented"]
     check_drain(eng, run)
